@@ -93,6 +93,18 @@ Definition unwind_key (k : K) : M unit :=
 Definition unwind_pair (p : K * V) : M unit :=
   emit (ev_drops (idK E (fst p) ++ idV E (snd p))) ;;
   _ <- cbd (fun s => dropK E s (fst p)) ;; _ <- cbd (fun s => dropV E s (snd p)) ;; ret tt.
+Definition unwind_val (v : V) : M unit :=
+  emit (ev_drops (idV E v)) ;; _ <- cbd (fun s => dropV E s v) ;; ret tt.
+(* two function PARAMETERS k, v (not a tuple): locals are destroyed in reverse order of
+   declaration, so the value goes first, then the key *)
+Definition drop_args (k : K) (v : V) : M unit :=
+  emit (ev_drops (idV E v ++ idK E k)) ;;
+  bv <- cbd (fun s => dropV E s v) ;;
+  bk <- cbd (fun s => dropK E s k) ;;
+  if bv || bk then panic else ret tt.
+Definition unwind_args (k : K) (v : V) : M unit :=
+  emit (ev_drops (idV E v ++ idK E k)) ;;
+  _ <- cbd (fun s => dropV E s v) ;; _ <- cbd (fun s => dropK E s k) ;; ret tt.
 Fixpoint unwind_pairs (l : list (K * V)) : M unit :=
   match l with [] => ret tt | p :: t => unwind_pair p ;; unwind_pairs t end.
 
